@@ -20,7 +20,7 @@ THOROUGH = {
                                  acts=ACTS + ["Copy", "Move", "Search"]), 800, 30)],
     "random": 800,
     "gen": dict(length=45),
-    "tlc_timeout": 3000,
+    "tlc_timeout": 1500,
 }
 
 def fn(ck, a):
